@@ -8,5 +8,10 @@ add("C18",
     "Trusted: the float64 reference circuit (numpy pinv, explicit loops); VCFB judged without end-point terms; float32 kernels compared with a stated absolute floor.",
     "deterministic simulation: seeded operation histories against an executable reference model",
     "DESIGN.md §4 C18")
-for _p in ("C01", "C05", "C06", "C09", "C13", "C15", "C17"):
+add("C09",
+    "Seeded search over histories of set_threshold / set_link_density / set_non_local / set_winter_only on ClimateNetwork (generated similarity matrices with ties, signs, asymmetry) and the data-driven subclasses; after every step an independent numpy model decides which pairs must be linked (incl. the tanh distance damping), the density bounds with tie counting, mutual consistency of threshold/density/link count/adjacency/sparse matrix/embedded graph, and monotonicity across the recorded history. Sampling, not enumeration.",
+    "Trusted: the numpy thresholding model; the similarity reported by data-driven subclasses and the grid's angular distances are inputs; pairs within a few float32 ulps of the threshold are not judged where the code works in mixed precision.",
+    "deterministic simulation: seeded operation histories against an executable reference model",
+    "DESIGN.md §4 C09")
+for _p in ("C01", "C05", "C06", "C13", "C15", "C17"):
     PENDING[_p] = "in the family (DESIGN §4) but its check is not built yet in this commit; not claimed until it is"
